@@ -170,3 +170,46 @@ package parallel
 //@   ensures [C14] slots-point-at-an-index-with-that-hash: result2 == nil ==> (forall h string :: (h in result1) ==> 0 <= result1[h] && result1[h] < len(indexes) && hashOf(indexes[result1[h]]) == h)
 //@   ensures [C14] injective-hash-gives-one-slot-per-index: result2 == nil && (forall a int, b int :: 0 <= a && a < b && b < len(indexes) ==> hashOf(indexes[a]) != hashOf(indexes[b])) ==> (forall k int :: 0 <= k && k < len(indexes) ==> result1[hashOf(indexes[k])] == k)
 //@   ensures [C14] one-slot-per-index: result2 == nil ==> (forall k int :: 0 <= k && k < len(indexes) ==> result1[hashOf(indexes[k])] == k)
+
+// ---- which (index, retry) may be created now and not before when (C08) ----------------------------------------------------------
+// per index hash h, over the first n tasks of the Job's status: the next retry number (one more than the largest used,
+// 0 if none), the latest finish instant (the zero time if none has finished), and whether a task of that index is
+// still unfinished ("neither finished nor gone") or has succeeded
+//@ pure nextRetry(ts []execution.TaskRef, h string, n int) Int =
+//@     n <= 0 ? 0 : ((hashT(ts[n - 1]) == h && ts[n - 1].RetryIndex + 1 > nextRetry(ts, h, n - 1)) ? ts[n - 1].RetryIndex + 1 : nextRetry(ts, h, n - 1))
+//@ pure finNs(t execution.TaskRef) Int = t.FinishTimestamp == nil ? ns(zero(time.Time)) : ns(t.FinishTimestamp.Time)
+//@ pure latestFin(ts []execution.TaskRef, h string, n int) Int =
+//@     n <= 0 ? ns(zero(time.Time)) : ((hashT(ts[n - 1]) == h && finished(ts[n - 1]) && finNs(ts[n - 1]) > latestFin(ts, h, n - 1)) ? finNs(ts[n - 1]) : latestFin(ts, h, n - 1))
+//@ pure occupies(t execution.TaskRef) bool = !finished(t) || succeededTask(t)
+//@ pure occupied(ts []execution.TaskRef, h string, n int) bool = exists k int :: 0 <= k && k < n && hashT(ts[k]) == h && occupies(ts[k])
+
+//@ pure distinctHashes(indexes []execution.ParallelIndex) bool = forall a int, b int :: 0 <= a && a < b && b < len(indexes) ==> hashOf(indexes[a]) != hashOf(indexes[b])
+//@ pure tasksBelong(ts []execution.TaskRef, indexes []execution.ParallelIndex) bool = forall k int :: 0 <= k && k < len(ts) ==> (exists i int :: 0 <= i && i < len(indexes) && hashOf(indexes[i]) == hashT(ts[k]))
+
+// a request for index i is due: nothing occupies the index, attempts remain; it carries the next retry number and the
+// earliest instant = latest finish + retry delay
+//@ pure wantsTask(job *execution.Job, h string) bool = !occupied(job.Status.Tasks, h, len(job.Status.Tasks)) && nextRetry(job.Status.Tasks, h, len(job.Status.Tasks)) < job.GetMaxAttempts()
+
+// a creation request is in order: its index is due, it carries the next retry number of that index and may be created
+// no earlier than the latest finish of that index plus the retry delay
+//@ pure reqOK(job *execution.Job, q IndexCreationRequest) bool = wantsTask(job, hashOf(q.ParallelIndex))
+//@     && q.RetryIndex == nextRetry(job.Status.Tasks, hashOf(q.ParallelIndex), len(job.Status.Tasks))
+//@     && ns(q.Earliest) == latestFin(job.Status.Tasks, hashOf(q.ParallelIndex), len(job.Status.Tasks)) + execution.retryDelaySeconds(job) * 1000000000
+
+//@ func ComputeMissingIndexesForCreation
+//@   tags C08
+//@   requires job != nil
+//@   assumes hashes-are-distinct-known-finding-F2: distinctHashes(indexes)
+//@   assumes every-recorded-task-belongs-to-an-index-of-the-job: tasksBelong(job.Status.Tasks, indexes)
+//@   assumes passed-admission: execution.retryDelaySeconds(job) >= 0 && execution.retryDelaySeconds(job) <= 9223372036
+//@   loop 1 invariant -1 <= rangeindex && rangeindex < len(job.Status.Tasks) && len(foundList) == len(indexes) && nextRetryIndex != nil && latestFinishTimeByIndex != nil
+//@   loop 1 invariant forall h string :: nextRetryIndex[h] == nextRetry(job.Status.Tasks, h, rangeindex + 1)
+//@   loop 1 invariant forall h string :: ns(latestFinishTimeByIndex[h]) == latestFin(job.Status.Tasks, h, rangeindex + 1)
+//@   loop 1 invariant forall i int :: {foundList[i]} 0 <= i && i < len(indexes) ==> foundList[i] == occupied(job.Status.Tasks, hashOf(indexes[i]), rangeindex + 1)
+//@   loop 2 invariant -1 <= rangeindex && rangeindex < len(foundList) && len(foundList) == len(indexes)
+//@   loop 2 invariant forall r int :: {requests[r]} 0 <= r && r < len(requests) ==> reqOK(job, requests[r])
+//@   loop 2 invariant forall r int :: {requests[r]} 0 <= r && r < len(requests) ==> (exists i int :: 0 <= i && i <= rangeindex && requests[r].ParallelIndex == indexes[i])
+//@   loop 2 invariant forall i int :: {indexes[i]} 0 <= i && i <= rangeindex && wantsTask(job, hashOf(indexes[i])) ==> (exists r int :: 0 <= r && r < len(requests) && requests[r].ParallelIndex == indexes[i])
+//@   ensures [C08] only-due-indexes-with-the-next-retry-number: result1 == nil ==> (forall r int :: {result0[r]} 0 <= r && r < len(result0) ==> reqOK(job, result0[r]))
+//@   ensures [C08] only-indexes-of-the-job: result1 == nil ==> (forall r int :: {result0[r]} 0 <= r && r < len(result0) ==> (exists i int :: 0 <= i && i < len(indexes) && result0[r].ParallelIndex == indexes[i]))
+//@   ensures [C08] every-due-index-is-requested: result1 == nil ==> (forall i int :: {indexes[i]} 0 <= i && i < len(indexes) && wantsTask(job, hashOf(indexes[i])) ==> (exists r int :: 0 <= r && r < len(result0) && result0[r].ParallelIndex == indexes[i]))
